@@ -128,8 +128,8 @@ def variants(tier: str, default_fsync_only: bool = False):  # noqa: C901
     # a maintenance call that ends with VACUUM followed, on the SAME handle, by operations that write pack rows: the transaction state
     # left behind by the first must not change when the rows of the second become durable/visible
     add('repack-then-direct', [{'op': 'repack', 'mode': 'keep'}, {'op': 'add_objects_to_pack', 'cs': [NEW[0], NEW[1], A[0]], 'compress': False}],
-        ['mixed', 'plain'])
-    add('repack-then-pack', [{'op': 'repack', 'mode': 'keep'}, pack('yes', True)], ['mixed'], quick=False)
+        ['mixed', 'plain'], repack=True)
+    add('repack-then-pack', [{'op': 'repack', 'mode': 'keep'}, pack('yes', True)], ['mixed'], quick=False, repack=True)
     add('vacuum-then-pack', [{'op': 'clean_storage', 'vacuum': True}, pack('yes', True)], ['mixed', 'loose'], quick=False)
     add('repack_pack:keep:after-delete', [{'op': 'delete', 'cs': [A[1]], 'absent': []}, {'op': 'repack_pack', 'mode': 'keep', 'pack': 0}],
         ['plain', 'mixed'], repack=True, quick=False)
